@@ -5,7 +5,6 @@
 //! build with `RUSTFLAGS="--cfg ascent_verif"` (hook H1) so that the `std::collections` tables
 //! of `ascent` are the model as well.
 #![allow(clippy::all)]
-#![cfg_attr(kani, feature(allocator_api))]
 #[cfg(kani)]
 extern crate alloc;
 
@@ -14,4 +13,4 @@ pub mod stubs;
 #[cfg(kani)]
 pub mod c19;
 #[cfg(kani)]
-pub mod probe;
+pub mod c18;
